@@ -252,6 +252,26 @@ example : execQuery exEnv [("t", .arr [.obj [("f", .num 1), ("g", .num 1)], .obj
       (.select [] false [.item (.col ["g"]) "g" "", .item (.aggr "max" [.col ["f"]]) "v" "v"] (.table ["t"] "" "t") (.bool true)
         [("g", ["g"])] (.bool true) [] none none)
     = .error .error := by decide
+/-- every `<-` is exactly one step back, also under EXISTS: in
+    ``SELECT id FROM t WHERE EXISTS (SELECT * FROM items WHERE k > `<-.lim`)`` the inner WHERE reads the OUTER row's `lim`
+    (only row 1 has an item above its own limit), and in
+    ``… WHERE EXISTS (SELECT * FROM items WHERE k IN (SELECT id FROM `<-.<-.u`))`` two steps lead from the item over the row to the
+    document (items 1 and 3 are ids of `u`) — round 11: a row that already carried a marker was not re-scoped -/
+def exNav : Row Int :=
+  [("t", .arr [.obj [("id", .num 1), ("lim", .num 1), ("items", .arr [.obj [("k", .num 1)], .obj [("k", .num 2)]])],
+               .obj [("id", .num 2), ("lim", .num 5), ("items", .arr [.obj [("k", .num 3)]])],
+               .obj [("id", .num 3), ("lim", .num 0), ("items", .arr [])]]),
+   ("u", .arr [.obj [("id", .num 1)], .obj [("id", .num 3)]])]
+example : execQuery exEnv exNav {} (.select [] false [.item (.col ["id"]) "id" ""] (.table ["t"] "" "t")
+      (.exists (.select [] false [.star] (.table ["items"] "" "items") (.cmp .gt (.col ["k"]) (.col ["<-", "lim"])) [] (.bool true) [] none none))
+      [] (.bool true) [] none none)
+    = .ok (.arr [.obj [("id", .num 1)]]) := by decide
+example : execQuery exEnv exNav {} (.select [] false [.item (.col ["id"]) "id" ""] (.table ["t"] "" "t")
+      (.exists (.select [] false [.star] (.table ["items"] "" "items")
+        (.cmp .in_ (.col ["k"]) (.subq (.select [] false [.item (.col ["id"]) "id" ""] (.table ["<-", "<-", "u"] "" "<-.<-.u")
+          (.bool true) [] (.bool true) [] none none))) [] (.bool true) [] none none))
+      [] (.bool true) [] none none)
+    = .ok (.arr [.obj [("id", .num 1)], .obj [("id", .num 2)]]) := by decide
 /-- `SELECT a, a - MAX(a) AS d FROM t LIMIT 2`: an aggregate NESTED in an expression of a plain select list is over all rows
     that passed WHERE (MAX = 5, from the fourth row), although the window keeps two (round 11: a scan that stopped at the
     end of the window) -/
